@@ -27,14 +27,23 @@ DISCRIMINATORS = {
 }
 
 
-def py_optimize_text(sxp, share=None):
-    """Run the real optimize on the lowered term; canonical text of the result, or RAISED <type>."""
+def py_optimize_text(sxp, share=None, judge=None, states=None):
+    """Run the real optimize on the lowered term; canonical text of the result, or RAISED <type>.
+    `judge.before` records what the property needs of the original BEFORE optimize runs."""
     try:
         p = lift.lower(sxp, share)
     except lift.Unliftable as e:
         raise HarnessError(f"cannot lower {sxp!r}: {e}")
+    if states is not None:
+        states.append(judge.before(p, sxp) if judge is not None else None)
+    snap = snapshot(p) if SNAPSHOT else None
     try:
-        o = optimize(p)
+        if CALL_BUDGET is not None:
+            o, _ = optimize_counted(p, CALL_BUDGET(S.size(sxp)))
+        else:
+            o = optimize(p)
+        if SNAPSHOT and snapshot(p) != snap:
+            return p, o, "MUTATED its argument"
     except RecursionError:
         return p, None, "RAISED RecursionError"
     except Exception as e:  # noqa: BLE001
@@ -45,6 +54,51 @@ def py_optimize_text(sxp, share=None):
         return p, o, f"UNLIFTABLE {e}"
     except Exception as e:  # noqa: BLE001  (e.g. optimize returned None)
         return p, o, f"UNLIFTABLE {type(e).__name__}: {e}"
+
+
+CALL_BUDGET = None  # C12: max optimize* invocations per call as a function of the tree size (None = unlimited)
+
+
+class CostExceeded(Exception):
+    pass
+
+
+def optimize_counted(p, limit):
+    """optimize(p) counting optimize* invocations; raises CostExceeded beyond `limit`.  Returns (result, calls)."""
+    n = 0
+
+    def prof(frame, event, arg):
+        nonlocal n
+        if event == "call" and frame.f_code.co_name.startswith("optimize") and "optimizer" in frame.f_code.co_filename:
+            n += 1
+            if limit is not None and n > limit:
+                raise CostExceeded(f"more than {limit} optimize* invocations")
+
+    sys.setprofile(prof)
+    try:
+        o = optimize(p)
+    finally:
+        sys.setprofile(None)
+    return o, n
+
+
+SNAPSHOT = False  # C12 switches this on: deep structural picture of the argument before / after optimize
+
+
+def snapshot(p):
+    """Deep structural picture of a predicate: classes, fields, set contents."""
+    from predicate.predicate import Predicate
+
+    if isinstance(p, Predicate):
+        d = getattr(p, "__dict__", {})
+        return (type(p).__name__, tuple((k, snapshot(v)) for k, v in sorted(d.items()) if k != "frame"))
+    if isinstance(p, (set, frozenset)):
+        return ("set", tuple(sorted(map(repr, p))))
+    if isinstance(p, (list, tuple)):
+        return (type(p).__name__, tuple(snapshot(x) for x in p))
+    if callable(p):
+        return ("fn", id(p))
+    return ("v", repr(p))
 
 
 def detect_cfg():
@@ -95,38 +149,84 @@ def named_objects(p, acc):
     return acc
 
 
-def prop_differs(p, o, sxp):
+class PropJudge:
     """C01's statement on the real objects: same truth value under every assignment
-    of the variables (by name).  Returns a falsifying assignment or None."""
-    names = names_of(sxp)
-    objs = named_objects(p, []) + named_objects(o, [])
-    for bits in itertools.product([False, True], repeat=len(names)):
-        env = dict(zip(names, bits))
-        for n in objs:
-            n.v = env.get(n.name, False)
-        a, b = bool(p(False)), bool(o(False))
-        if a != b:
-            return {"assignment": {k: int(v) for k, v in env.items()}, "original_value": a, "optimized_value": b}
-    return None
+    of the variables (by name).  The original's table is recorded BEFORE optimize runs
+    (so an optimize that mutates shared sub-terms is seen) and re-read afterwards."""
+
+    def _table(self, q, names, objs):
+        rows = []
+        for bits in itertools.product([False, True], repeat=len(names)):
+            env = dict(zip(names, bits))
+            for n in objs:
+                n.v = env.get(n.name, False)
+            rows.append(bool(q(False)))
+        return rows
+
+    def before(self, p, sxp):
+        names = names_of(sxp)
+        saved = [(n, n.v) for n in named_objects(p, [])]
+        t = self._table(p, names, [n for n, _ in saved])
+        for n, v in saved:  # optimize must see the variables in the state the case prescribes
+            n.v = v
+        return names, t
+
+    def after(self, state, p, o, sxp):
+        names, t0 = state
+        objs = named_objects(p, []) + named_objects(o, [])
+        t1 = self._table(o, names, objs)
+        t2 = self._table(p, names, objs)
+        for k, bits in enumerate(itertools.product([0, 1], repeat=len(names))):
+            if t0[k] != t1[k]:
+                return {"assignment": dict(zip(names, bits)), "original_value": t0[k], "optimized_value": t1[k]}
+            if t0[k] != t2[k]:
+                return {"assignment": dict(zip(names, bits)), "original_value": t0[k], "original_after_optimize": t2[k], "what": "optimize changed the meaning of its argument (mutation)"}
+        return None
 
 
-def values_differ(values):
-    from .evalcorr import atoms_defined
+prop_differs = PropJudge()
 
-    def f(p, o, sxp):
-        for x in values:
-            if not atoms_defined(p, x):  # outside the property: some atom of the original is undefined here
-                continue
-            a = p(x)
+
+class ValuesJudge:
+    def __init__(self, values):
+        self.values = values
+
+    def before(self, p, sxp):
+        from .evalcorr import atoms_defined
+
+        rec = []
+        for x in self.values:
+            if atoms_defined(p, x):  # outside the property otherwise: some atom of the original is undefined here
+                rec.append((x, bool(p(x))))
+        return rec
+
+    def after(self, state, p, o, sxp):
+        for x, a in state:
             try:
                 b = o(x)
             except Exception as e:  # noqa: BLE001
-                return {"value": repr(x), "original_value": bool(a), "optimized_value": f"raised {type(e).__name__}"}
-            if bool(a) != bool(b):
-                return {"value": repr(x), "original_value": bool(a), "optimized_value": bool(b)}
+                return {"value": repr(x), "original_value": a, "optimized_value": f"raised {type(e).__name__}"}
+            if a != bool(b):
+                return {"value": repr(x), "original_value": a, "optimized_value": bool(b)}
+            try:
+                a2 = bool(p(x))
+            except Exception as e:  # noqa: BLE001
+                a2 = f"raised {type(e).__name__}"
+            if a2 != a:
+                return {"value": repr(x), "original_value": a, "original_after_optimize": a2, "what": "optimize changed the meaning of its argument (mutation)"}
         return None
 
-    return f
+
+def values_differ(values):
+    return ValuesJudge(values)
+
+
+class NoJudge:
+    def before(self, p, sxp):
+        return None
+
+    def after(self, state, p, o, sxp):
+        return None
 
 
 def run(chk, name, cases, cfg, differs, share=False, restore_vars=True):
@@ -138,15 +238,15 @@ def run(chk, name, cases, cfg, differs, share=False, restore_vars=True):
       quirk listed as an open known finding for this property."""
     cases = list(cases)
     known = {f["quirk"]: f["id"] for f in open_findings(chk.pid) if "quirk" in f}
-    py = []
+    py, states = [], []
     for s in cases:
         shared = {} if share else None
-        py.append(py_optimize_text(s, shared))
+        py.append(py_optimize_text(s, shared, differs, states))
     model = model_opt(cfg, cases)
     disagreements = []
     fired = {}
     changed = 0
-    for s, (p, o, ptxt), (mtxt, tr) in zip(cases, py, model):
+    for s, (p, o, ptxt), (mtxt, tr), state in zip(cases, py, model, states):
         chk.evaluations += 1
         stext = S.show(s)
         for t in tr:
@@ -157,17 +257,17 @@ def run(chk, name, cases, cfg, differs, share=False, restore_vars=True):
         if ptxt != stext:
             changed += 1
             chk.nontrivial.add(stext)
-        if o is not None and not ptxt.startswith(("RAISED", "UNLIFTABLE")):
-            w = differs(p, o, s)
+        if o is not None and not ptxt.startswith(("RAISED", "UNLIFTABLE", "MUTATED")):
+            w = differs.after(state, p, o, s)
             if w is not None:
                 expl = None
-                if agree:
+                if agree and "what" not in w:
                     for t in tr:
                         if t in known:
                             expl = known[t]
                             break
                 chk.add_failure(stext, {"optimized": ptxt, **w, "model_trace": tr}, expl)
-        elif ptxt.startswith("RAISED") or ptxt.startswith("UNLIFTABLE"):
+        elif ptxt.startswith("RAISED") or ptxt.startswith("UNLIFTABLE") or ptxt.startswith("MUTATED"):
             # optimize did not return a predicate: that is a failure of C12/C01 in itself
             chk.add_failure(stext, {"optimized": ptxt, "model": mtxt}, None)
     chk.add_corr(name, len(cases), disagreements)
